@@ -171,6 +171,19 @@ type pool struct {
 	done    bool
 	paths   int64
 	maxPath int64
+	cmu     sync.Mutex
+	perH    map[string]int64
+}
+
+// count increments and returns the number of paths started for a harness.
+func (p *pool) count(h string) int64 {
+	p.cmu.Lock()
+	defer p.cmu.Unlock()
+	if p.perH == nil {
+		p.perH = map[string]int64{}
+	}
+	p.perH[h]++
+	return p.perH[h]
 }
 
 func (p *pool) push(t *task) {
@@ -388,8 +401,9 @@ func (in *Interp) runTask(t *task, p *pool, res *harnessResult, cfg *Config) {
 	in.ensureInit(t.h)
 	in.prefix = t.prefix
 	for {
-		if atomic.AddInt64(&p.paths, 1) > p.maxPath {
-			res.inconclusive(fmt.Sprintf("path budget of %d exhausted", p.maxPath))
+		atomic.AddInt64(&p.paths, 1)
+		if p.count(t.h.Name()) > p.maxPath {
+			res.inconclusive(fmt.Sprintf("path budget of %d per harness exhausted", p.maxPath))
 			return
 		}
 		in.runPath(t.h, res)
